@@ -43,6 +43,9 @@ pub struct Purity(pub &'static str);
 
 impl Prop for Purity {
     type Case = CalcHistory;
+    fn shrink_iters(&self) -> u32 {
+        300
+    }
     fn name(&self) -> &'static str {
         self.0
     }
@@ -168,6 +171,9 @@ pub struct Sessions;
 
 impl Prop for Sessions {
     type Case = SessionHistory;
+    fn shrink_iters(&self) -> u32 {
+        300
+    }
     fn name(&self) -> &'static str {
         "session-history"
     }
